@@ -81,10 +81,79 @@ def kkt_check(A, b, d, allow_tol):
     return True, ""
 
 
+def exact_solve(A, b):
+    """Gauss-Jordan in Fractions; None if singular."""
+    n = len(b)
+    M = [list(r) + [bi] for r, bi in zip(A, b)]
+    for c in range(n):
+        piv = next((r for r in range(c, n) if M[r][c] != 0), None)
+        if piv is None:
+            return None
+        M[c], M[piv] = M[piv], M[c]
+        pv = M[c][c]
+        M[c] = [x / pv for x in M[c]]
+        for r in range(n):
+            if r != c and M[r][c] != 0:
+                f = M[r][c]
+                M[r] = [x - f * y for x, y in zip(M[r], M[c])]
+    return [M[i][n] for i in range(n)]
+
+
+def exact_nnls(A, b):
+    """textbook Lawson-Hanson in exact arithmetic (independent of the code under test and of the Lean
+    model); used only to classify failing inputs (is the exact optimum degenerate?)."""
+    n = len(b)
+    P = []
+    x = [F(0)] * n
+    for _ in range(10 * n + 10):
+        w = [bi - v for bi, v in zip(b, matvec(A, x))]
+        cand = [i for i in range(n) if i not in P and w[i] > 0]
+        if not cand:
+            return x
+        P.append(max(cand, key=lambda i: w[i]))
+        while True:
+            sub = exact_solve([[A[i][j] for j in P] for i in P], [b[i] for i in P])
+            if sub is None:
+                return None
+            z = [F(0)] * n
+            for k, i in enumerate(P):
+                z[i] = sub[k]
+            if all(z[i] > 0 for i in P):
+                x = z
+                break
+            alpha = min(x[i] / (x[i] - z[i]) for i in P if z[i] <= 0)
+            x = [xi + alpha * (zi - xi) for xi, zi in zip(x, z)]
+            P = [i for i in P if x[i] > 0]
+    return None
+
+
+def degenerate_optimum(A, b):
+    """True iff the exact minimiser s* of 1/2 s'As - b's, s >= 0 has an index with s*_i = 0 whose gradient
+    vanishes too (to 1e-10 of the gradient scale): strict complementarity fails."""
+    x = exact_nnls(A, b)
+    if x is None:
+        return False
+    g = [v - bi for v, bi in zip(matvec(A, x), b)]
+    scale = max([abs(v) for v in b] + [F(1, 2**40)])
+    return any(x[i] == 0 and abs(g[i]) <= scale / 10**10 for i in range(len(b)))
+
+
 def sol_scale(A, b, ref):
     amax = max((abs(x) for r in A for x in r), default=F(1)) or F(1)
     bmax = max((abs(x) for x in b), default=F(0))
     return max([abs(F(x)) for x in ref] + [bmax / amax, F(1, 2**40)])
+
+
+def rel_tol(A):
+    """relative tolerance of a solution comparison: 1e-7 (DESIGN §2.4), widened for ill-conditioned systems
+    to 8·cond₂(A)·2⁻⁵³ — the forward error a backward-stable float solve is entitled to (real inversions
+    with Constant regularization reach cond ~ 1e10)."""
+    if not A:
+        return REL_SOL
+    c = float(np.linalg.cond(np_mat(A)))
+    if not np.isfinite(c):
+        return REL_SOL
+    return max(REL_SOL, F(8 * c * 2.0 ** -53))
 
 
 def diff_vec(cmp: Cmp, impl, model, tol, path):
@@ -546,14 +615,14 @@ class C05(PropertyCheck):
             if not model_obs.get("kkt", True):
                 # the model left through no_update / with a non-certified result: nothing exact to compare with
                 raise Skip("model result not KKT-certified")
-            return diff_vec(cmp, impl_obs["d"], md, REL_SOL * sol_scale(A, b, md), "$.d")
+            return diff_vec(cmp, impl_obs["d"], md, rel_tol(A) * sol_scale(A, b, md), "$.d")
         if kind == "recon":
             A, b = fr_mat(case["A"]), fr_vec(case["b"])
-            return diff_vec(cmp, impl_obs["s"], model_obs["s"], REL_SOL * sol_scale(A, b, model_obs["s"]), "$.s")
+            return diff_vec(cmp, impl_obs["s"], model_obs["s"], rel_tol(A) * sol_scale(A, b, model_obs["s"]), "$.s")
         aux = impl_obs["aux"]
         A, b = fr_mat(aux["A"]), fr_vec(aux["b"])
         ms = model_obs["reconstruction"]
-        d = diff_vec(cmp, impl_obs["reconstruction"], ms, REL_SOL * sol_scale(A, b, ms), "$.reconstruction")
+        d = diff_vec(cmp, impl_obs["reconstruction"], ms, rel_tol(A) * sol_scale(A, b, ms), "$.reconstruction")
         if d:
             return d
         if "mapped_dict" in model_obs:
@@ -685,6 +754,21 @@ class C05(PropertyCheck):
             return case["fn"] == "posneg" or (any(x == 0 for x in s) and any(x > 0 for x in s))
         s = fr_vec(obs["reconstruction"])
         return any(x == 0 for x in s) or any(x < 0 for x in s)
+
+    def known_finding(self, case, obs):
+        """D4c: on a system whose exact optimum is degenerate (a zero entry with zero gradient) rounding
+        noise in w can exceed the absolute tolerance 2.2204e-16*n and the float active-set iteration
+        cycles until the 10000-iteration guard raises.  Input class: degenerate optimum (decided in exact
+        arithmetic on the input); only the exception outcome belongs to the finding — a non-optimal
+        *returned* solution on the same input is still reported."""
+        if case["kind"] not in ("solver", "recon") or case.get("fn") == "posneg":
+            return None
+        if not (isinstance(obs, dict) and obs.get("err") in ("runtime", "InversionException")):
+            return None
+        A, b = fr_mat(case["A"]), fr_vec(case["b"])
+        if not b or exact_solve(A, b) is None:
+            return None
+        return "D4c" if degenerate_optimum(A, b) else None
 
     def shrink(self, case):
         if case["kind"] not in ("solver", "recon") or case.get("fn") == "posneg":
